@@ -16,8 +16,10 @@ EXPLANATION = (
     "number of times (structural part of symmetry); errors of the first/second argument map to Source/Sink; the final "
     "verdict compares the equivalence classes of both sides. (R7.3) the graph-name comparison eq_gn returns true only for "
     "(None,None) and (Some,Some) with equal terms; the pairwise comparators compare all positions. (R7.4) the colour of a "
-    "node combines its quads with XOR over an ordered set of quad indexes (order-independent by construction: no dedup / "
-    "position-dependent combination). NOT decided: no-false-negative under hash collisions; that the refinement loop "
+    "node combines its quads with a wrapping sum (commutative and, unlike XOR, not self-cancelling) over an ordered set of quad "
+    "indexes, with no dedup / position-dependent step. (R7.8) the refinement loop has an exit on a counter that decreases by a "
+    "constant every round. (R7.9) duplicates yielded by a container are removed with an exact (label-sensitive) comparison "
+    "before sizes are compared. NOT decided: no-false-negative under hash collisions; that the refinement loop "
     "distinguishes exactly the non-automorphic nodes.")
 
 
@@ -214,6 +216,15 @@ def driver_rule(ck, facts, name, helper_res):
         nm = (t["f"].get("name") or "")
         if (res in facts.fns and facts.fns[res].crate == "sophia_isomorphism") or re.search(r"sort_unstable|sort$|slice::<impl \[T\]>::(sort\w*|len|iter)$|Vec::<T, A>::len$|HashMap::<K, V, S, A>::len$", nm):
             base = nm.split("::")[-1]
+            if base == "len" and t["dest"]:
+                # only sizes that are *compared* say how the two arguments are treated; a size used in arithmetic (the
+                # bound on the number of refinement rounds, taken from one side after both counts were found equal) does not
+                d = t["dest"][0]
+                compared = any(st[0] == "=" and st[2][0] == "bin" and st[2][1] in ("Eq", "Ne", "Lt", "Le", "Gt", "Ge")
+                               and any(op[0] != "k" and op[1][0] == d for op in st[2][2:4])
+                               for b in fn.blocks for st in b["s"])
+                if not compared:
+                    continue
             counts[base] = counts.get(base, 0) + 1
     odd = {k: v for k, v in counts.items() if v % 2 == 1 and k not in ("cmp_quads", "eq_triples", "eq_quads", "all", "zip", "eq")}
     if odd:
@@ -253,13 +264,22 @@ def colour_rule(ck, facts):
         calls = [t for c in clos for _, t in c.calls()]
         names = [(t["f"].get("name") or "") for t in calls]
         xor = any(st[0] == "=" and st[2][0] == "bin" and st[2][1] == "BitXor" for c in clos for b in c.blocks for st in b["s"])
+        add = any(st[0] == "=" and st[2][0] == "bin" and st[2][1] in ("Add", "AddWithOverflow", "AddUnchecked") and "u64" in c.locals[st[1][0]]["ty"]
+                  for c in clos for b in c.blocks for st in b["s"]) or any(re.search(r"num::<impl u64>::wrapping_add$", n) for n in names)
         bad = [n for n in names if re.search(r"::dedup\w*$|::sort\w*$|iter::Iterator::(fold|enumerate|rev|skip|take|last|position)$|Vec::<T, A>::push$", n)]
         hq = [n for n in names if n.endswith("hash_quad_with") or n.endswith("hash_triple_with")]
-        if xor and hq and not bad:
-            ck.ok("R7.4", "%s::make_map: colour = XOR over the node's statements of hash_*_with (commutative, no order-dependent step)" % mod)
+        if xor:
+            ck.bad("R7.4", "R7.4@%s::make_map#xor-cancels" % mod, "the colour of a node is the XOR of its statements' hashes: two statements that "
+                   "hash alike (a node pointing with the same predicate to two nodes of the same colour) cancel each other, so nodes "
+                   "already distinguished are merged again, the refinement is not monotone and the class count can oscillate for "
+                   "ever (isomorphic_graphs(g, g) never returns for a 17-node graph: findings/C07_refinement_never_terminates.rs)", fn.loc)
+        elif add and hq and not bad:
+            ck.ok("R7.4", "%s::make_map: colour = wrapping sum over the node's statements of hash_*_with (commutative, not self-cancelling, no "
+                  "order-dependent step)" % mod)
         else:
-            ck.bad("R7.4", "R7.4@%s::make_map#combination" % mod, "the colour of a node is not the plain XOR of its statements' hashes (xor=%s, "
-                   "order-dependent steps: %s): colours must not depend on statement order" % (xor, [b.split("::")[-1] for b in bad]), fn.loc)
+            ck.bad("R7.4", "R7.4@%s::make_map#combination" % mod, "the colour of a node is not a commutative, non-cancelling combination (wrapping "
+                   "sum) of its statements' hashes (sum=%s, order-dependent steps: %s): colours must not depend on statement order" % (
+                       add, [b.split("::")[-1] for b in bad]), fn.loc)
 
 
 def hash_rule(ck, facts):
@@ -330,6 +350,89 @@ def no_merge_rule(ck, facts, crate="sophia_isomorphism", ty_re=r"IsoTerm"):
         ck.ok("R7.7", "no merging / removal on vectors of IsoTerm quads (%d functions)" % n)
 
 
+def counter_bounded(fn, anchor_re):
+    """(loop found, it has an exit taken when a counter that changes by a constant every round reaches a bound)"""
+    anchors = [bi for bi, t in fn.calls() if call_name_matches(t, anchor_re)]
+    if not anchors:
+        return False, False
+    a = anchors[0]
+    loop = {b for b in fn.reachable(a) if a in fn.reachable(b) and b != a} | {a}
+    if a not in fn.reachable(fn.blocks[a]["t"]["to"]):
+        return False, False
+    # counters: c = (c +/- const).0 inside the loop
+    counters = set()
+    for b in loop:
+        for st in fn.blocks[b]["s"]:
+            if st[0] == "=" and st[2][0] == "bin" and st[2][1] in ("SubWithOverflow", "AddWithOverflow", "Sub", "Add", "SubUnchecked", "AddUnchecked"):
+                l, r = st[2][2], st[2][3]
+                if l[0] != "k" and len(l[1]) == 1 and r[0] == "k":
+                    tmp = st[1][0]
+                    for b2 in loop:
+                        for s2 in fn.blocks[b2]["s"]:
+                            if s2[0] == "=" and s2[1] == [l[1][0]] and s2[2][0] == "use" and s2[2][1][0] != "k" and s2[2][1][1][0] == tmp:
+                                counters.add(l[1][0])
+                    if st[1] == [l[1][0]]:
+                        counters.add(l[1][0])
+    for b in loop:
+        bs = bool_switch(fn, b)
+        if not bs or bs[0][0] != "rvalue" or bs[0][1][0] != "bin" or bs[0][1][1] not in ("Eq", "Ne", "Lt", "Le", "Gt", "Ge"):
+            continue
+        ops = bs[0][1][2:4]
+        roots = set()
+        for op in ops:
+            if op[0] != "k":
+                sd = fn.single_def(op[1][0])
+                roots.add(op[1][0])
+                if sd and sd[2][0] == "use" and sd[2][1][0] != "k":
+                    roots.add(sd[2][1][1][0])
+        if roots & counters and any(e not in loop for e in (bs[1], bs[2])):
+            return True, True
+    return True, False
+
+
+def termination_rule(ck, facts):
+    """R7.8: the exits of the refinement loop test the number of colour classes, which is not monotone (a node's previous colour
+    is not part of its next colour); termination is guaranteed only by a counter-bounded exit."""
+    import core
+    ck.control("R7.8", "pos_unbounded_fixpoint", counter_bounded(core.fixture_fn("pos_unbounded_fixpoint"), r"^step$") == (True, False))
+    ck.control("R7.8", "neg_bounded_fixpoint", counter_bounded(core.fixture_fn("neg_bounded_fixpoint"), r"^step$") != (True, True), expect=False)
+    fn = find(ck, facts, "R7.8", r"^dataset::isomorphic_datasets$", "isomorphic_datasets")
+    if fn is None:
+        return
+    found, ok = counter_bounded(fn, r"^dataset::make_map$")
+    if not found:
+        ck.bad("R7.8", "R7.8@isomorphic_datasets#anchor", "anchor-missing: the refinement loop around make_map", fn.loc)
+    elif ok:
+        ck.ok("R7.8", "isomorphic_datasets: the refinement loop has a counter-bounded exit")
+    else:
+        ck.bad("R7.8", "R7.8@isomorphic_datasets#unbounded-refinement", "the refinement loop only stops when the number of colour classes "
+               "stops changing or every node is distinguished; that number is not monotone (a node's new colour does not include "
+               "its old one), so the loop can run for ever on a graph that is isomorphic to itself", fn.loc)
+
+
+def duplicates_rule(ck, facts):
+    """R7.9: Graph/Dataset implementations may yield a statement several times; the statements are collected through a set
+    with an exact (label-sensitive) order before sizes are compared and before they are wrapped as blank-blind IsoTerms."""
+    fn = find(ck, facts, "R7.9", r"^dataset::prepare_dataset$", "prepare_dataset")
+    if fn is None:
+        return
+    fs = facts.with_closures(fn)
+    exact_set = any(re.search(r"^std::collections::(BTreeSet|HashSet)<\(\[(sophia_api::term::CmpTerm|sophia_api::term::SimpleTerm)", l["ty"]) for f in fs for l in f.locals)
+    dedup = any(call_name_matches(t, r"Vec::<T, A>::dedup\w*$") for f in fs for _, t in f.calls())
+    blind_set = any(re.search(r"^std::collections::(BTreeSet|HashSet)<\(\[iso_term::IsoTerm", l["ty"]) for f in fs for l in f.locals)
+    if blind_set:
+        ck.bad("R7.9", "R7.9@prepare_dataset#blank-blind-set", "the statements are collected in a set of IsoTerms, whose order treats all blank "
+               "nodes as equal: different statements are merged", fn.loc)
+    elif exact_set:
+        ck.ok("R7.9", "prepare_dataset: statements pass through a set ordered by the exact term comparison (duplicates removed)")
+    elif dedup:
+        ck.ok("R7.9", "prepare_dataset: duplicates removed with dedup (exactness decided by R7.7)")
+    else:
+        ck.bad("R7.9", "R7.9@prepare_dataset#duplicates-counted", "the statements yielded by the container are counted and zipped as they come: "
+               "a Vec-backed graph holding a triple twice (or a union graph of two named graphs sharing a triple) is not "
+               "isomorphic to its own de-duplicated copy", fn.loc)
+
+
 def run(ck, facts, tier):
     facts.require_crates(["sophia_isomorphism"])
     iso_term_rule(ck, facts)
@@ -359,5 +462,7 @@ def run(ck, facts, tier):
             ck.bad("R7.2", "R7.2@graph::isomorphic_graphs#forward", "isomorphic_graphs is not the plain forward to isomorphic_datasets on both "
                    "graphs viewed as datasets, in order", gfn.loc)
     colour_rule(ck, facts)
-    ck.assumptions = ["hash collisions of the 64-bit colour hashes are not considered", "termination/completeness of the refinement loop not decided"]
+    termination_rule(ck, facts)
+    duplicates_rule(ck, facts)
+    ck.assumptions = ["hash collisions of the 64-bit colour hashes are not considered", "completeness of the refinement (that it distinguishes exactly the non-automorphic nodes) not decided"]
     ck.trusted = ["rustc MIR", "std sort"]
